@@ -27,10 +27,45 @@ type Settings struct {
 	DurInt                                                                  bool
 	Prec                                                                    int
 	StackMarshaler                                                          bool
+	LevelStyle                                                              int // 0 default LevelFieldMarshalFunc; 1 upper-case with NoLevel -> "DEFAULT"; 2 numeric; 3 info -> ""
+}
+
+// the levels the generators use (a custom LevelFieldMarshalFunc is shipped to the model as a table over them)
+var GenLevels = []int{-128, -5, -1, 0, 1, 2, 3, 4, 5, 6, 8, 127}
+
+func (s Settings) levelText(l zerolog.Level) string {
+	switch s.LevelStyle {
+	case 1:
+		if l == zerolog.NoLevel {
+			return "DEFAULT"
+		}
+		return strings.ToUpper(l.String())
+	case 2:
+		return strconv.Itoa(int(l))
+	case 3:
+		if l == zerolog.InfoLevel {
+			return ""
+		}
+		return l.String()
+	}
+	return l.String()
+}
+
+func (s Settings) levelTextCoq() string {
+	if s.LevelStyle == 0 {
+		return "level_string"
+	}
+	var b strings.Builder
+	b.WriteString("(fun l => ")
+	for _, l := range GenLevels {
+		fmt.Fprintf(&b, "if (l =? %s)%%Z then %s else ", ZS(int64(l)), CoqBytes([]byte(s.levelText(zerolog.Level(l)))))
+	}
+	b.WriteString("level_string l)")
+	return b.String()
 }
 
 func DefaultSettings() Settings {
-	return Settings{"level", "message", "error", "stack", "time", "caller", time.RFC3339, time.Millisecond, false, -1, false}
+	return Settings{"level", "message", "error", "stack", "time", "caller", time.RFC3339, time.Millisecond, false, -1, false, 0}
 }
 
 func (s Settings) timefmtCoq() string {
@@ -60,9 +95,9 @@ func ifaceCoq(b []byte, err error) string {
 }
 
 func (s Settings) Coq() string {
-	return fmt.Sprintf("{| s_level_name := %s; s_message_name := %s; s_error_name := %s; s_stack_name := %s; s_timestamp_name := %s; s_caller_name := %s; s_timefmt := %s; s_dur_unit := %s; s_dur_int := %s; s_prec := %s; s_nil_iface := %s; s_level_text := level_string; s_stack_marshaler := %s |}",
+	return fmt.Sprintf("{| s_level_name := %s; s_message_name := %s; s_error_name := %s; s_stack_name := %s; s_timestamp_name := %s; s_caller_name := %s; s_timefmt := %s; s_dur_unit := %s; s_dur_int := %s; s_prec := %s; s_nil_iface := %s; s_level_text := %s; s_stack_marshaler := %s |}",
 		CoqBytes([]byte(s.LevelName)), CoqBytes([]byte(s.MessageName)), CoqBytes([]byte(s.ErrorName)), CoqBytes([]byte(s.StackName)),
-		CoqBytes([]byte(s.TimestampName)), CoqBytes([]byte(s.CallerName)), s.timefmtCoq(), ZS(int64(s.DurUnit)), CoqBool(s.DurInt), ZS(int64(s.Prec)), nilIfaceCoq(), CoqBool(s.StackMarshaler))
+		CoqBytes([]byte(s.TimestampName)), CoqBytes([]byte(s.CallerName)), s.timefmtCoq(), ZS(int64(s.DurUnit)), CoqBool(s.DurInt), ZS(int64(s.Prec)), nilIfaceCoq(), s.levelTextCoq(), CoqBool(s.StackMarshaler))
 }
 
 // Apply installs the settings into zerolog's globals; the returned func restores the defaults.
@@ -74,6 +109,8 @@ func (s Settings) Apply() func() {
 	zerolog.DurationFieldInteger = s.DurInt
 	zerolog.FloatingPointPrecision = s.Prec
 	zerolog.ErrorMarshalFunc = errorMarshal
+	style := s
+	zerolog.LevelFieldMarshalFunc = func(l zerolog.Level) string { return style.levelText(l) }
 	if s.StackMarshaler {
 		zerolog.ErrorStackMarshaler = stackMarshal
 	} else {
@@ -89,6 +126,7 @@ func (s Settings) Apply() func() {
 		zerolog.FloatingPointPrecision = d.Prec
 		zerolog.ErrorMarshalFunc = func(err error) interface{} { return err }
 		zerolog.ErrorStackMarshaler = nil
+		zerolog.LevelFieldMarshalFunc = func(l zerolog.Level) string { return l.String() }
 		zerolog.TimestampFunc = time.Now
 	}
 }
